@@ -1,18 +1,18 @@
-(* model runner: main <cases-file> <out-file>; one case per line: id \t prop \t op op op ... *)
-let table : (string * (string -> string list -> out_channel -> unit)) list = [
-  ("C18", C18.run);
-]
+(* model runner: main <cases-file> <out-file>; one case per line: id \t prop \t op op op ...
+   The per-property modules (c18.ml, ...) register themselves in Registry; dune links every
+   module of the executable, all.ml (generated) references them so none is dropped. *)
+let () = All.touch ()
 
 let () =
   let inp = open_in Sys.argv.(1) and out = open_out Sys.argv.(2) in
   (try
     while true do
       let line = input_line inp in
-      if String.length line > 0 then begin
+      if String.length line > 0 && line.[0] <> '#' then begin
         match String.split_on_char '\t' line with
         | id :: prop :: rest ->
           let ops = match rest with [] -> [] | s :: _ -> Stdlib.List.filter (fun x -> x <> "") (String.split_on_char ' ' s) in
-          (match Stdlib.List.assoc_opt prop table with
+          (match Hashtbl.find_opt Registry.table prop with
            | Some f -> (try f id ops out with e -> Printf.fprintf out "%s\t-1\trunner-exception=%s\n" id (Printexc.to_string e))
            | None -> Printf.fprintf out "%s\t-1\tno-runner\n" id)
         | _ -> ()
